@@ -330,7 +330,8 @@ func htmlBlocks(ns []*hnode, inLi bool, out *[]xblk) error {
 			}
 			t = strings.TrimSuffix(t, "\n")
 			for _, l := range strings.Split(t, "\n") {
-				*out = append(*out, xblk{kind: "code", line: l})
+				// a line ending is LF or CRLF (CommonMark 2.1); goldmark copies the CR of a CRLF source into the <pre>
+				*out = append(*out, xblk{kind: "code", line: strings.TrimSuffix(l, "\r")})
 			}
 		case "table":
 			t := &xtbl{}
